@@ -15,7 +15,8 @@ RULE = ("files: members of the conforming/violating families, stacked variants (
         "diagnostics of which >=2 share a line; distinct by SHA-1 of the text")
 
 LEXICAL = ["'a\\q\n", "'ab'", "''", "\"abc", "'a", "'a\n", "0b1221", "0129", "12ab", "1.2.3", "1e", "@", "$", "`", "\\ ", "é", "→x", "/* é */ @",
-           "\"é\" 'é'", "0x1g", "1.5q", "0b102 0b12", "'\\q'", "\"\\q\"", "'\\x'", "x = 'abc' + 0b12;", "\t'a\n\t0b12 @\n"]
+           "\"é\" 'é'", "0x1g", "1.5q", "0b102 0b12", "'\\q'", "\"\\q\"", "'\\x'", "x = 'abc' + 0b12;", "\t'a\n\t0b12 @\n", "0x1E+n", "0xE-1", "0x1e+0b12", "0xfE-'ab'", "0x1g 0xE+1", "/* unterminated", "\"\\x\" 0x1E-2",
+           "0x.p1", "1.5e+ 0xE+2", "0b12 0xE-1 @"]
 
 
 def nlines(text):
